@@ -204,3 +204,69 @@ def _is_len_like(body, op):
             continue
         return False
     return True
+
+
+def close_region(F, entries, other_ctx=(), is_test=lambda p: False):
+    """entries: list of (body, source_bb or None, kind). Returns path -> (blocks or None, how): the part of
+    each entry dominated by its source call plus, transitively, the whole body of everything callable from there."""
+    from callgraph import callgraph
+    from flow import short
+    cg = callgraph(F)
+    region = {}
+    work = []
+
+    def add(path, how):
+        if path not in region and path in F.fns and not is_test(path) and F.fns[path].kind in ("Fn", "AssocFn", "Closure"):
+            region[path] = (None, how)
+            work.append(path)
+
+    for body, bb, kind in entries:
+        if bb is None:
+            blocks = None
+        else:
+            blocks = {b.idx for b in body.blocks if b.idx in body.reach and body.dominates(bb, b.idx) and b.idx != bb}
+        region[body.path] = (blocks, "entry:" + kind)
+        work.append(body.path)
+    while work:
+        p = work.pop()
+        body = F.fns[p]
+        blocks = region[p][0]
+        for bb, kind, targets in cg.callees(body):
+            if blocks is not None and bb not in blocks:
+                continue
+            if in_log_macro(body.blocks[bb].term):
+                continue
+            for t in targets:
+                tb = F.fns.get(t)
+                if tb is None:
+                    continue
+                if kind == "indirect" and other_ctx:
+                    ins = tb.j.get("inputs", [])
+                    if any(any(c in i for c in other_ctx) for i in ins):
+                        continue
+                add(t, "%s from %s" % (kind, short(p)))
+        # call-backs: local impls of external traits for ADTs built here; Deserialize impls of local
+        # types named in generic arguments
+        for bb, i, s in body.statements():
+            if blocks is not None and bb not in blocks:
+                continue
+            if s["s"] == "assign" and s["rvalue"]["rv"] == "agg" and s["rvalue"]["kind"] == "adt":
+                adt = s["rvalue"]["adt"]
+                if adt in F.adts:
+                    for imp in F.impls:
+                        tr = imp.get("trait") or ""
+                        if imp.get("self_adt") == adt and tr and not tr.startswith("bevy_replicon") \
+                                and not tr.startswith("core::") and not tr.startswith("bevy_"):
+                            for it in imp["items"]:
+                                add(it, "callback impl %s for %s" % (short(tr), short(adt)))
+        for bb, t in body.calls():
+            if blocks is not None and bb not in blocks:
+                continue
+            for a in t.get("callee", {}).get("args", []):
+                base = a.split("<")[0]
+                if base in F.adts:
+                    for imp in F.impls:
+                        if imp.get("self_adt") == base and (imp.get("trait") or "").startswith("serde_core::de::Deserialize"):
+                            for it in imp["items"]:
+                                add(it, "serde callback for %s" % short(base))
+    return region
